@@ -154,7 +154,9 @@ def parse_sections(text: str) -> SectionConfig:
         # Check for variable declaration
         var_match = VARIABLE_DECL.match(line.strip())
         if var_match:
-            var_name = var_match.group(1)
+            # Names are looked up lower-cased by the evaluator (like primitives and
+            # functions), so store them that way or 'avgMonthly = ...' could never be used.
+            var_name = var_match.group(1).lower()
             var_expr = var_match.group(2).strip()
 
             # Validate the expression
